@@ -116,6 +116,15 @@ namespace sim
 		m_handler = std::move(handler);
 		if (m_expired)
 		{
+			// the timer may have been cancelled (rather than fired) while its
+			// expiry is still in the future. Like a real waitable timer, the new
+			// wait completes when that expiry is reached, not right away
+			if (m_expiration_time > chrono::high_resolution_clock::now())
+			{
+				m_expired = false;
+				m_io_service->add_timer(this);
+				return;
+			}
 			fire(boost::system::error_code());
 			return;
 		}
